@@ -212,6 +212,51 @@ class ClassCall(object):
         return ('class-call', cls.__name__, y)
 
 
+class Stack(object):
+    """container-like: falsy while empty"""
+
+    def __init__(self, items=()):
+        self.items = list(items)
+
+    def __len__(self):
+        return len(self.items)
+
+    def push(self, x, y=2, **kw):
+        LOG.append(('Stack.push', tuple(self.items), x, y, tuple(sorted(kw.items()))))
+        if x > 0:
+            self.items.append(x + y)
+        else:
+            self.items.append(y)
+        return ('push', tuple(self.items))
+
+
+class Falsy(object):
+    def __bool__(self):
+        return False
+
+    def meth(self, x, y=2, *rest, **kw):
+        LOG.append(('Falsy.meth', x, y, rest, tuple(sorted(kw.items()))))
+        if x > 0:
+            return ('falsy-meth', x + y, rest)
+        return ('falsy-meth', y, rest)
+
+
+class LenMeta(type):
+    def __len__(cls):
+        return 0
+
+
+class EmptyRegistry(metaclass=LenMeta):
+    """a class that is itself falsy (metaclass __len__): receiver of classmethods"""
+
+    @classmethod
+    def make(cls, x, y=2, **kw):
+        LOG.append(('EmptyRegistry.make', cls.__name__, x, y, tuple(sorted(kw.items()))))
+        if x > 0:
+            return ('make', cls.__name__, x + y)
+        return ('make', cls.__name__, y)
+
+
 def with_self_attr(x, y=2, **kw):
     LOG.append(('with_self_attr', x, y, tuple(sorted(kw.items()))))
     if x > 0:
